@@ -86,6 +86,13 @@ def run(report, tier, seed, driver, proofs_ok):
         (["s3:getobject", "S3:GETOBJECT"], None),
         ("*", "*"),
     ]
+    # the model-level API (CFModel.expand_actions) on the empty values: it must agree with the other three
+    for v, neg in (([], True), ([], False), ("", False), ("", True), (["s3:getobject"], True), (["iam:passrole", "S3:GETOBJECT", "ec2:Run*"], False)):
+        def thunk0(v=v, neg=neg):
+            ra, rb = impl.model_level(None if neg else v, v if neg else None)
+            return rb if neg else ra
+
+        add("module", {"value": v, "not": neg}, thunk0)
     for action, notaction in corpus:
         add("statement", {"action": action, "notaction": notaction}, (lambda a=action, b=notaction: impl.statement(a, b)))
         if notaction is not None:
